@@ -451,6 +451,35 @@ def hyp_part(n_examples, shard, n_sub):
     return part
 
 
+def env_part(shard, seed):
+    """
+    every environment variable the tree under test may consult (gen.tree_env_names: none on a tree that never looks at the
+    environment) set to each of a dozen values, alone: vector mode, complete dialogue and early end of input, as real children
+    """
+    import random
+    part = runner.Part(PID)
+    names = gen.tree_env_names()
+    combos = [(nm, val) for nm in names for val in gen.ENV_VALUES]
+    rng = random.Random(runner.mix(seed, 1718, shard))
+    for j, (nm, val) in enumerate(combos):
+        if j % runner.NPROC != shard:
+            continue
+        for flag in ("-2", "-3", "-4", None):
+            version = FLAGVER[flag] if flag else DEFAULT
+            ver = interact.verkey(version)
+            V = spec.VERS[ver]
+            vec = gen.rng_vector(rng, ver)
+            order = interact.probe_order(version, False) or list(V.mandatory)
+            answers = [rng.choice(V.table[m]) for m in order]
+            base = [flag] if flag else []
+            for argv, stdin in ((base + ["--vector=" + vec], None), (base + ["-j", "-n", "--vector=" + vec[:-1]], None), (base, answers), (base + ["-n", "-j"], answers),
+                                (base, answers[:len(answers) // 2]), (base + ["-a"], [])):
+                inp = {"argv": argv, "stdin": stdin, "subprocess": True, "console_script": bool(j % 2), "env": {nm: val}}
+                part.count(inp, nontrivial=True, classes=("environment variable named in the tree",))
+                part.check("cli", check_cli, inp)
+    return part
+
+
 def pty_dialogue_part(shard, n, seed):
     """complete, typeable dialogues at a pseudo-terminal under every terminal environment (deterministic answers from a seeded generator)"""
     import random
@@ -482,6 +511,8 @@ def run(tier, t0):
     else:
         part = runner.hyp_shards("vf.props.c17", "hyp_part", 160000, args=(300,))
     for p in runner.parallel("vf.props.c17", "pty_dialogue_part", [(sh, 4 if tier == "quick" else 32, runner.SEED) for sh in range(runner.NPROC)]):
+        part.merge(p)
+    for p in runner.parallel("vf.props.c17", "env_part", [(sh, runner.SEED) for sh in range(runner.NPROC)]):
         part.merge(p)
     from ..fuzz import driver
     fuzz_note = driver.campaign(part, "cli", runs=80000 if tier == "quick" else 1000000)
